@@ -106,7 +106,7 @@ def build(e, cfg, P):
     # a stand-alone monitor with history (reducer state and counters)
     mon = observe.InputMonitor(observe.CAReducer(DT, duration=2 * DT, inclusive=True, inplace=syn_inplace), layer)      # 3-slot ring, in-place or not
     # a single-slot (duration 0) running average of a persistent float state: its buffer must stay its own (no storage shared with the neuron)
-    mon2 = observe.StateMonitor(observe.EMAReducer(DT, 0.3, duration=0.0, inplace=(not syn_inplace)), "voltage", watched)
+    mon2 = observe.StateMonitor(observe.EMAReducer(DT, 0.3, duration=0.0, inplace=(cfg["j"] != 1)), "voltage", watched)      # out-of-place exactly in the targets that were warmed up by a single step
     return layer, trainer, mon, mon2
 
 
